@@ -589,7 +589,7 @@ class Gen:
         out = {"files": files, "fs": fs, "charset": charset, "stream": stream, "tags": list(self.tags), "hit": sorted(self.hit), "acyclic": acyclic}
         for t in self.tags:
             if t.startswith("must-fail:"):
-                out["expect"] = {"outcome": "failed", "diag": t.split(":", 1)[1]}
+                out["expect"] = {"outcome": "failed", "diag": t.split(":", 1)[1].split("|")}
         return out
 
     ACYCLIC_DEEP = ("deep:evens", "deep:long-expr", "deep:nest-brackets", "deep:nest-repeat",
@@ -1020,7 +1020,18 @@ class Gen:
                 lines = defs[1:] + [use, defs[0]]        # the shape of the report: chain, use, then the definition that closes the ring
             else:
                 lines = self.ordered(defs, use, order)
-            self.tags.append("must-fail:recursive-definition")
+            if form is None or (("+" in form or "-" in form.lstrip("-")) and "*" in form):
+                # steps that mix a product and a sum of the same symbol: polynomial (~N^3.5-4) slowness is a known finding
+                # (ring-mixed-chain-polynomial-slowness); keep that shape short here so that quick stays fast
+                if n > 20:
+                    n2 = r.choice([8, 12, 16, 20])
+                    defs = [d for d in defs if int(d[1:d.index(" ")]) <= n2]
+                    k2 = min(k, n2)
+                    defs[0] = defs[0].replace(f"x{k}", f"x{k2}")
+                    use = use.replace(f"x{n}", f"x{n2}").replace(f"x{k}", f"x{k2}")
+                    n, k = n2, k2
+                    lines = self.ordered(defs, use, r.choice(["backward", "shuffled", "forward"]))
+            self.tags.append("must-fail:recursive-definition|too-complex")
         elif kind == "include-graph":
             lines = self.block(r.choice([0, 1, 3]), 0, False) + self.include_graph().split("\n") + self.block(r.choice([0, 1]), 0, False)
             fs = dict(self.fs)
